@@ -960,8 +960,22 @@ func genProject(r *rand.Rand, id int, real bool) *Case {
 	return c
 }
 
-// runs the project once and returns one case per replica
+// runs the project and returns one case per replica.  env_cmds are real shell commands under a 2 s
+// timeout inside process-compose: on a heavily loaded machine one may time out; such a run is repeated
+// (a genuine defect reproduces every time and is then reported).
 func runProject(spec *Case) []*Case {
+	var out []*Case
+	for attempt := 0; attempt < 3; attempt++ {
+		var complete bool
+		out, complete = runProjectOnce(spec)
+		if complete {
+			break
+		}
+	}
+	return out
+}
+
+func runProjectOnce(spec *Case) ([]*Case, bool) {
 	dir, err := os.MkdirTemp(root, "proj")
 	if err != nil {
 		panic(err)
@@ -977,11 +991,11 @@ func runProject(spec *Case) []*Case {
 	defer os.Chdir(root)
 	file := filepath.Join(dir, "pc.yaml")
 	os.WriteFile(file, []byte(projectYAML(spec, dir)), 0o644)
-	fail := func(msg string) []*Case {
+	fail := func(msg string) ([]*Case, bool) {
 		c := *spec
 		c.Name, c.LaunchErr = spec.Procs[0].Name, msg
 		c.Inh = os.Environ()
-		return []*Case{&c}
+		return []*Case{&c}, true
 	}
 	opts := &loader.LoaderOptions{FileNames: []string{file}, IsInternalLoader: true}
 	opts.DisableDotenv(true)
@@ -1010,6 +1024,18 @@ func runProject(spec *Case) []*Case {
 	}
 	_ = runner.Run()
 	os.Stdout = saved
+	complete := true
+	for _, cs := range spec.Cmds {
+		found := false
+		for _, e := range runner.VerifProject().Environment {
+			if strings.HasPrefix(e, cs.Key+"=") {
+				found = true
+			}
+		}
+		if cs.OK && !found {
+			complete = false
+		}
+	}
 	var out []*Case
 	for _, p := range spec.Procs {
 		for num := 0; num < p.Replicas; num++ {
@@ -1060,7 +1086,7 @@ func runProject(spec *Case) []*Case {
 			out = append(out, &c)
 		}
 	}
-	return out
+	return out, complete
 }
 
 // ------------------------------------------------------------------------------------------ main
